@@ -309,6 +309,11 @@ def build_formula(rec):
         return scope.mk_cnf(rec['n'], [tuple(c) for c in rec['clauses']])
     if src == 'ctor':
         return CNF([list(c) for c in rec['clauses']])
+    if src == 'wide':
+        w = rec['w']
+        return scope.mk_cnf(rec['n'], [tuple(v if v % 3 else -v for v in range(1, w + 1)),
+                                       tuple(-v for v in range(w, 0, -1)), (rec['n'],),
+                                       tuple(range(2, w + 2))])
     if src == 'named':
         F = CNF()
         for spec in rec['vars']:
@@ -999,6 +1004,10 @@ def catalogue(tier, seed):
             lits = [(j + 1) if (i >> j) & 1 else -(j + 1) for j in range(13)]
             cls.append([l for j, l in enumerate(lits) if (i + j) % 4 != 0 or j == i % 13])
         cat.append({'src': 'scope', 'n': 13, 'clauses': cls})
+    # very wide clauses (a writer that emits a clause in pieces, a reader with a
+    # bounded line buffer): one clause over every variable, and its neighbours
+    for w in (119, 120, 121, 255, 256, 1499, 1500, 1501, 3001):
+        cat.append({'src': 'wide', 'n': w + 1, 'w': w})
     cat.append({'src': 'ctor', 'clauses': []})
     for name in FAMILY_NAMES:
         cat.append({'src': 'family', 'name': name})
